@@ -5,6 +5,7 @@ package main
 
 import (
 	"fmt"
+	"go/token"
 	"go/types"
 	"os"
 	"path/filepath"
@@ -127,10 +128,54 @@ func LoadProg(repo, trustedDir string) (*Prog, error) {
 		return nil, err
 	}
 	p.cs = cs
+	p.instantiateDefaults()
 	if err := p.resolveGhosts(); err != nil {
 		return nil, err
 	}
 	return p, nil
+}
+
+// instantiateDefaults gives every exported method of a type with a `methods` default contract, and without a contract of
+// its own, a copy of the default (so that new API surface of a type that carries an invariant is verified against it).
+func (p *Prog) instantiateDefaults() {
+	var dkeys []string
+	for k, c := range p.cs.Funcs {
+		if c.Kind == "methods" {
+			dkeys = append(dkeys, k)
+		}
+	}
+	sort.Strings(dkeys)
+	var fkeys []string
+	for k := range p.funcs {
+		fkeys = append(fkeys, k)
+	}
+	sort.Strings(fkeys)
+	for _, dk := range dkeys {
+		d := p.cs.Funcs[dk]
+		prefix := d.PkgPath + "::" + d.Target + "."
+		for _, fk := range fkeys {
+			fn := p.funcs[fk]
+			if !strings.HasPrefix(fk, prefix) || fn.Signature.Recv() == nil || fn.Synthetic != "" || len(fn.Blocks) == 0 {
+				continue
+			}
+			name := fk[len(prefix):]
+			if strings.ContainsAny(name, "$#") || !token.IsExported(name) {
+				continue
+			}
+			if _, own := p.cs.Funcs[fk]; own {
+				continue
+			}
+			c := *d
+			c.Kind = "func"
+			c.Target = d.Target + "." + name
+			c.RecvAlias = d.ParamNames[0]
+			c.ParamNames = nil
+			c.FromDefault = dk
+			c.Loops = map[int]*LoopSpec{}
+			p.cs.Funcs[fk] = &c
+			p.cs.Order = append(p.cs.Order, fk)
+		}
+	}
 }
 
 func (p *Prog) typesPkg(path string) *types.Package {
